@@ -4,6 +4,8 @@ import json
 TECH = "contract-based deductive verification (weakest preconditions over go/ssa, SMT: z3 5.1/4.8, cvc5)"
 TRUST = "Trusted: go/ssa front end, the govc VC generator, SMT solvers and the prelude axioms in /verif/spec; assumed contracts of library functions are listed in the evidence file. "
 CHECKS = {
+ "C13": ("Proof over commands.fsckPointer against a ghost file system and hash model (an object is reported intact exactly when its file exists and hex(SHA-256(content)) equals its id, or it cannot be opened and the pointer says it is empty), the per-object callback of doFsckObjects (records exactly the objects that are not intact) and fsckCommand (success is reported only when no corrupt object or pointer was found; corrupt objects are moved with os.Rename from their object path, never removed, and not at all under --dry-run).",
+         "os.Open/io.Copy/sha256/hex are assumed contracts over the ghost file system; the scanners are assumed to report every referenced pointer; objpath is defined by the assumed contract of fs.(*Filesystem).ObjectPathname; output helpers (Print, Exit...) are assumed to have no effect on state; the pointer half (canonical / non-pointer classification in doFsckPointers) is not yet under contract."),
  "C15": ("Proof over the retry logic of the transfer queue: (*retryCounter).CanRetry (budget test is count < MaxRetries), canRetryObject/canRetryObjectLater (exact characterisation: budget left AND the error is retriable / retriable-later, with the server's time), every retry sink (the three enqueueRetry call sites of enqueueAndCollectRetriesFor and both sends on the retries channel in handleTransferResult are reached only with budget left and a retriable error; a deferred object carries the Retry-After time), the retry bookkeeping closure (server time wins, then explicit time), (batch).Concat (the batch attempted next only holds objects whose ready time has passed), and action expiry ((ActionSet).Get, (*Transfer).Rel, (*Action).IsExpiredWithin, tools.IsExpiredAtOrIn: an action expiring within five seconds is never handed out).",
          "time is an uninterpreted order (time_after/time_add); error classification is an assumed contract over uninterpreted predicates; overlap of two transfers of one object and real elapsed time are not decided; the exponential back-off bound of ReadyTime is not yet under contract."),
  "C17": ("Proof over the real code of creds.(Creds).buffer: the buffer starts with exactly the two capability lines, nothing is written outside the per-item step, and every completed step appends exactly key=value LF for a value free of LF, NUL and (under protection) CR; an unsafe value returns an error and no buffer.",
